@@ -371,7 +371,9 @@ def _continuation(out, s, sname, vkind, where, self_worker):
   out.cls('continuation_checked')
   before = [int(t.id) for t in s.ListTrials(
       vsp.ListTrialsRequest(parent=sname)).trials]
-  for who, worker in (('same_worker', self_worker), ('new_worker', 'wz')):
+  others = [w for w in ('w1', 'w2', 'w3') if w != self_worker]
+  for who, worker in [('same_worker', self_worker), ('new_worker', 'wz')] + [
+      ('other_worker', w) for w in others]:
     try:
       o = s.SuggestTrials(vsp.SuggestTrialsRequest(
           parent=sname, client_id=worker, suggestion_count=1))
